@@ -312,3 +312,187 @@ theorem nameLen_of_cstr (d : Buf) (pos : Nat) (str : Bytes) (fuel : Nat)
       · simpa [Nat.add_assoc, Nat.add_comm 1] using hz
 
 end Mila.Containers
+
+/-! ### loops -/
+
+namespace Mila.Containers
+open Prog
+
+/-- `repeatN p n` over records of `stride` bytes starting at `base`: every run of `p` satisfies `Q`
+of its index, leaves the names alone and advances by `stride`. -/
+theorem repeatN_run {α : Type} (p : Prog α) (f : Buf) (Q : Nat → α → Prop) (stride base : Nat) :
+    ∀ (n k : Nat) (s : St), s.pos = base + stride * k →
+      (∀ i s, k ≤ i → i < k + n → s.pos = base + stride * i →
+        ∃ a s', run p f s = .ok (a, s') ∧ Q i a ∧ s'.pos = s.pos + stride ∧ s'.names = s.names ∧ s.hi ≤ s'.hi) →
+      ∃ as s', run (repeatN p n) f s = .ok (as, s') ∧ as.length = n ∧
+        (∀ i a, as[i]? = some a → Q (k + i) a) ∧
+        s'.pos = base + stride * (k + n) ∧ s'.names = s.names ∧ s.hi ≤ s'.hi := by
+  intro n
+  induction n with
+  | zero =>
+    intro k s hs _
+    exact ⟨[], s, rfl, rfl, by intro i a h; simp at h, by simpa using hs, rfl, Nat.le_refl _⟩
+  | succ n ih =>
+    intro k s hs hstep
+    obtain ⟨a, s1, h1, hq, hp1, hn1, hh1⟩ := hstep k s (Nat.le_refl _) (by omega) hs
+    obtain ⟨as, s2, h2, hl2, hq2, hp2, hn2, hh2⟩ := ih (k + 1) s1
+      (by rw [hp1, hs, Nat.mul_add, Nat.mul_one, Nat.add_assoc])
+      (fun i s hki hik hsp => hstep i s (by omega) (by omega) hsp)
+    refine ⟨a :: as, s2, ?_, by simp [hl2], ?_, ?_, by rw [hn2, hn1], by omega⟩
+    · simp only [repeatN]
+      rw [run_bind, h1]
+      simp only []
+      rw [run_bind, h2]
+      rfl
+    · intro i b hb
+      cases i with
+      | zero => simp at hb; subst hb; simpa using hq
+      | succ j =>
+        simp at hb
+        have := hq2 j b hb
+        have e : k + 1 + j = k + (j + 1) := by omega
+        rw [e] at this; exact this
+    · rw [hp2]; congr 2; omega
+
+/-- `mapM' g xs` where every item logs exactly one name (`nameOf` of its index), produces a value
+satisfying `R` of its index, and reads at least up to `H` of its index. -/
+theorem mapM'_run_named {α β : Type} (g : α → Prog β) (f : Buf) (R : Nat → β → Prop)
+    (nameOf : Nat → Bytes) (H : Nat → Nat) :
+    ∀ (xs : List α) (k : Nat) (s : St),
+      (∀ i x s, xs[i]? = some x →
+        ∃ b s', run (g x) f s = .ok (b, s') ∧ R (k + i) b ∧ s'.names = nameOf (k + i) :: s.names ∧
+          s.hi ≤ s'.hi ∧ H (k + i) ≤ s'.hi) →
+      ∃ bs s', run (mapM' g xs) f s = .ok (bs, s') ∧ bs.length = xs.length ∧
+        (∀ i b, bs[i]? = some b → R (k + i) b) ∧
+        s'.names = ((List.range xs.length).map (fun i => nameOf (k + i))).reverse ++ s.names ∧
+        s.hi ≤ s'.hi ∧ (∀ i, i < xs.length → H (k + i) ≤ s'.hi) := by
+  intro xs
+  induction xs with
+  | nil =>
+    intro k s _
+    exact ⟨[], s, rfl, rfl, by intro i b h; simp at h, by simp, Nat.le_refl _, by intro i h; simp at h⟩
+  | cons x xs ih =>
+    intro k s hstep
+    obtain ⟨b, s1, h1, hr, hn1, hh1, hH1⟩ := hstep 0 x s (by simp)
+    obtain ⟨bs, s2, h2, hl2, hr2, hn2, hh2, hH2⟩ := ih (k + 1) s1
+      (fun i y s hy => by
+        have := hstep (i + 1) y s (by simpa using hy)
+        have e : k + (i + 1) = k + 1 + i := by omega
+        rw [e] at this; exact this)
+    refine ⟨b :: bs, s2, ?_, by simp [hl2], ?_, ?_, by omega, ?_⟩
+    · simp only [mapM']
+      rw [run_bind, h1]
+      simp only []
+      rw [run_bind, h2]
+      rfl
+    · intro i c hc
+      cases i with
+      | zero => simp at hc; subst hc; simpa using hr
+      | succ j =>
+        simp at hc
+        have := hr2 j c hc
+        have e : k + 1 + j = k + (j + 1) := by omega
+        rw [e] at this; exact this
+    · rw [hn2, hn1]
+      simp only [List.length_cons, List.range_succ_eq_map, List.map_cons, List.map_map, List.reverse_cons,
+        List.append_assoc, List.singleton_append, Nat.add_zero]
+      congr 2
+      apply List.map_congr_left
+      intro i _
+      simp only [Function.comp]
+      congr 1; omega
+    · intro i hi
+      cases i with
+      | zero => simp at hH1 ⊢; omega
+      | succ j =>
+        have := hH2 j (by simp at hi; omega)
+        have e : k + 1 + j = k + (j + 1) := by omega
+        rw [e] at this; exact this
+
+/-- `mapM' g xs` where no item logs a name. -/
+theorem mapM'_run_plain {α β : Type} (g : α → Prog β) (f : Buf) (R : Nat → β → Prop) :
+    ∀ (xs : List α) (k : Nat) (s : St),
+      (∀ i x s, xs[i]? = some x →
+        ∃ b s', run (g x) f s = .ok (b, s') ∧ R (k + i) b ∧ s'.names = s.names ∧ s.hi ≤ s'.hi) →
+      ∃ bs s', run (mapM' g xs) f s = .ok (bs, s') ∧ bs.length = xs.length ∧
+        (∀ i b, bs[i]? = some b → R (k + i) b) ∧ s'.names = s.names ∧ s.hi ≤ s'.hi := by
+  intro xs
+  induction xs with
+  | nil =>
+    intro k s _
+    exact ⟨[], s, rfl, rfl, by intro i b h; simp at h, rfl, Nat.le_refl _⟩
+  | cons x xs ih =>
+    intro k s hstep
+    obtain ⟨b, s1, h1, hr, hn1, hh1⟩ := hstep 0 x s (by simp)
+    obtain ⟨bs, s2, h2, hl2, hr2, hn2, hh2⟩ := ih (k + 1) s1
+      (fun i y s hy => by
+        have := hstep (i + 1) y s (by simpa using hy)
+        have e : k + (i + 1) = k + 1 + i := by omega
+        rw [e] at this; exact this)
+    refine ⟨b :: bs, s2, ?_, by simp [hl2], ?_, by rw [hn2, hn1], by omega⟩
+    · simp only [mapM']
+      rw [run_bind, h1]
+      simp only []
+      rw [run_bind, h2]
+      rfl
+    · intro i c hc
+      cases i with
+      | zero => simp at hc; subst hc; simpa using hr
+      | succ j =>
+        simp at hc
+        have := hr2 j c hc
+        have e : k + 1 + j = k + (j + 1) := by omega
+        rw [e] at this; exact this
+
+/-- `forIdx g n k` (indices `k .. k+n`), every item logging one name. -/
+theorem forIdx_run_named {β : Type} (g : Nat → Prog β) (f : Buf) (R : Nat → β → Prop)
+    (nameOf : Nat → Bytes) (H : Nat → Nat) :
+    ∀ (n k : Nat) (s : St),
+      (∀ i s, k ≤ i → i < k + n →
+        ∃ b s', run (g i) f s = .ok (b, s') ∧ R i b ∧ s'.names = nameOf i :: s.names ∧
+          s.hi ≤ s'.hi ∧ H i ≤ s'.hi) →
+      ∃ bs s', run (forIdx g n k) f s = .ok (bs, s') ∧ bs.length = n ∧
+        (∀ i b, bs[i]? = some b → R (k + i) b) ∧
+        s'.names = ((List.range n).map (fun i => nameOf (k + i))).reverse ++ s.names ∧
+        s.hi ≤ s'.hi ∧ (∀ i, i < n → H (k + i) ≤ s'.hi) := by
+  intro n
+  induction n with
+  | zero =>
+    intro k s _
+    exact ⟨[], s, rfl, rfl, by intro i b h; simp at h, by simp, Nat.le_refl _, by intro i h; omega⟩
+  | succ n ih =>
+    intro k s hstep
+    obtain ⟨b, s1, h1, hr, hn1, hh1, hH1⟩ := hstep k s (Nat.le_refl _) (by omega)
+    obtain ⟨bs, s2, h2, hl2, hr2, hn2, hh2, hH2⟩ := ih (k + 1) s1
+      (fun i s hki hik => hstep i s (by omega) (by omega))
+    refine ⟨b :: bs, s2, ?_, by simp [hl2], ?_, ?_, by omega, ?_⟩
+    · simp only [forIdx]
+      rw [run_bind, h1]
+      simp only []
+      rw [run_bind, h2]
+      rfl
+    · intro i c hc
+      cases i with
+      | zero => simp at hc; subst hc; simpa using hr
+      | succ j =>
+        simp at hc
+        have := hr2 j c hc
+        have e : k + 1 + j = k + (j + 1) := by omega
+        rw [e] at this; exact this
+    · rw [hn2, hn1]
+      simp only [List.range_succ_eq_map, List.map_cons, List.map_map, List.reverse_cons,
+        List.append_assoc, List.singleton_append, Nat.add_zero]
+      congr 2
+      apply List.map_congr_left
+      intro i _
+      simp only [Function.comp]
+      congr 1; omega
+    · intro i hi
+      cases i with
+      | zero => simp; omega
+      | succ j =>
+        have := hH2 j (by omega)
+        have e : k + 1 + j = k + (j + 1) := by omega
+        rw [e] at this; exact this
+
+end Mila.Containers
